@@ -298,7 +298,9 @@ def run_check(prop, args, seed, t_start):
         if cname in cjson and not args.no_bounded:
             rep = run_native('replay.py', {'contract': cjson[cname], 'model': o.model or {}, 'obligation': o.oid,
                                            'note': o.note, 'seed': seed, 'tier': tier}, 300)
-        if not rep.get('reproduced'):
+        if not rep.get('reproduced') and o.verdict == 'refuted':
+            # only an obligation the solver REFUTED borrows the bounded layer's failing input; an obligation without a verdict stays undecided
+            # (otherwise an unrelated timeout would be reported under the name of this obligation)
             bw = bounded_witness(o.func)
             if bw is not None:
                 rep = {'reproduced': True, 'input': bw.get('input'), 'observed': bw.get('what'), 'expected': bw.get('expected'),
